@@ -348,6 +348,37 @@ def run(ctx):
                "a path reaches Ok(Some(Argument)) without any token-start event (push to result / opening quote / backslash) and without the true edge of a flag set only at such events: blocks %s — "
                "an argument that is not in the input (e.g. for trailing blanks before end of input)" % (wit,), fn=ws, where=prim.site(ws, b, s), how="must-pass (%d token-start blocks, %d guard edges)" % (len(start_blocks), len(through) - len(start_blocks)))
     ctx.floor("R4", "token-start event blocks", len(start_blocks), 5)
+    # the converse: whatever puts a byte into the argument (or opens a quote) raises every flag the emission relies on
+    # before the next byte is looked at — otherwise the separator test, or the end of input, sees "no argument yet"
+    # although `result` already holds one, and the outcome depends on where a read() happened to end
+    # (the state enum is local to the function: its variant numbers are read off the places that build it)
+    esc_idx = {}
+    for b_ in ws.reachable():
+        for s_ in ws.blocks[b_].stmts:
+            if s_.rv is not None and s_.rv.k == "agg" and str(s_.rv.j.get("adt", "")).endswith("Escape") and s_.rv.j.get("variant") is not None:
+                esc_idx[s_.rv.j["variant"]] = s_.rv.j.get("vidx")
+    for l_, fl_ok in flags.items():
+        if not fl_ok:
+            continue
+        trues = {bb for bb, v in prim.const_assigns_to(ws, l_) if v is True}
+        unflagged = []
+        for pb in sorted(push_blocks | {bb for bb in esc_some_blocks}):
+            vf = prim.variant_facts(ws, pb, prog)
+            in_quote = any(adt_.endswith("Escape") and var in ("Quote", esc_idx.get("Quote")) and holds for adt_, var, holds, subj, gd in vf)
+            opens_slash = pb in esc_some_blocks and pb not in push_blocks and any(
+                str(x.a).endswith("Escape::Slash") for bb, kind, obj in prim.local_defs(ws).get(locs["escape"], []) if bb == pb and kind == "assign" for x in prim._origin_of_def(ws, (bb, kind, obj), 6, set()).walk() if x.k == "agg")
+            if in_quote or opens_slash:
+                continue          # inside a quote the flag was raised when it opened; a backslash alone is not yet an argument
+            if pb in trues:
+                continue
+            tgt = ws.blocks[pb].term.target if ws.blocks[pb].term.k == "call" else None
+            starts = [tgt] if tgt is not None else ws.succs(pb)
+            if not all(prim.must_pass(ws, s_, [refill_guard], trues) for s_ in starts):
+                unflagged.append(pb)
+        ctx.ob("R4", "every-token-start-is-flagged:%s" % (ws.local_name(l_) or l_), not unflagged,
+               "blocks %s put a byte into the argument (or open a quote) and can return to the top of the loop without setting `%s`, the flag that decides whether a separator or the end of input delivers an argument: "
+               "the argument is then glued to the next one or lost, depending on where a read() ended" % ([prim.site(ws, b_) for b_ in unflagged], ws.local_name(l_)),
+               fn=ws, where=prim.site(ws, unflagged[0]) if unflagged else None, how="must-pass from each token-start block to the loop head")
 
     # ---- R5 terminator kind -------------------------------------------------------------------------------
     tl = locs["terminated_by_newline"]
